@@ -151,6 +151,40 @@ func init() {
 			},
 		},
 		{
+			// CR3 files that end with their preview box (no mdat behind it): the last bytes of the
+			// preview are the last bytes of the stream, and may arrive together with its end
+			Name: "preview-last", Weight: 1,
+			N: func(tier string, seed uint64) uint64 {
+				if tier == "thorough" {
+					return 200000
+				}
+				return 15000
+			},
+			Run: func(c *Ctx) {
+				g := c.L("gen")
+				var o gen.CR3Opts
+				o.CMT[0] = gen.BuildTIFF(g, gen.DrawRecord(g, 40), gen.LayoutOpts{Canonical: true}).Encode(g.Bool()).Bytes
+				n := []int{40, 900, 4000, 4100, 8200, 12400, 20000}[g.Intn(7)] + g.Intn(200)
+				o.Preview = append([]byte{0xff, 0xd8, 0xff, 0xdb}, g.Sub().Bytes(n)...)
+				o.Tail = 1
+				if g.Bool() {
+					o.XMP = []byte("<x:xmpmeta xmlns:x='adobe:ns:meta/'></x:xmpmeta>")
+				}
+				cr := gen.DrawCR3(g, o)
+				op := &opCase{data: cr.Bytes, name: fmt.Sprintf("cr3-preview-last(%d)", len(o.Preview)), e: harness.EntryByName([]string{"PreviewCR3", "isobmff.Reader"}[g.Intn(2)]), trunc: -1}
+				if !op.e.NeedSeek {
+					op.spec.RK = c.L("cfg").Intn(harness.NumRK)
+				}
+				d := drawDelivery(c.L("dev:0"))
+				if g.Bool() {
+					d.DataEOF = true
+				}
+				c.Inc("fault:short(" + []string{"whole", "const", "random", "dribble", "aligned"}[d.Piece] + "):configured")
+				c.Descf("%s delivery=%s", op, d)
+				c08Compare(c, op, d)
+			},
+		},
+		{
 			// XMP streams that end (or go on) where the parser's 1538-byte window ends: a root start
 			// tag or a token that fills the window exactly, with the end of the stream behind it
 			Name: "xmp-window-edge", Weight: 1,
